@@ -17,7 +17,8 @@
 (*                                                                         *)
 (* Faults (C14): every solve has an outcome; "ok" is the natural one, the  *)
 (* others are what a MILP back end can exhibit.  Time is virtual: a solve  *)
-(* takes plan[k].d seconds, nothing else takes time.                       *)
+(* takes plan[k].d time units (microseconds in MC_Faults), nothing else    *)
+(* takes time; opts.limit is in the same unit.                             *)
 (***************************************************************************)
 EXTENDS MPText, MPOptions, MPIP
 
@@ -33,7 +34,7 @@ VARIABLES
     vals,     \* achieved (frozen) value of each solve
     status,   \* status of the most recent solve ("" before any)
     proven,   \* TRUE iff every solve so far ended with a proven optimum
-    elapsed,  \* virtual seconds spent in this run
+    elapsed,  \* virtual time spent in the solves of this run
     plan,     \* outcome plan: sequence of [o |-> outcome, d |-> duration]
     result,   \* what the back end left in the variables after the run
     nruns,    \* number of completed solve() calls
